@@ -228,6 +228,15 @@ def r3(R):
                         env_d[e.left.id] = r
             if lab != 'e' and node.kind == 'stmt':
                 s = node.ast
+                # `x = x + e` is `x += e`
+                if isinstance(s, ast.Assign) and len(s.targets) == 1 and \
+                        isinstance(s.targets[0], ast.Name) and isinstance(
+                            s.value, ast.BinOp) and isinstance(
+                                s.value.left, ast.Name) and \
+                        s.value.left.id == s.targets[0].id:
+                    s = ast.copy_location(ast.AugAssign(
+                        target=s.targets[0], op=s.value.op,
+                        value=s.value.right), s)
                 if isinstance(s, ast.AugAssign) and isinstance(
                         s.target, ast.Name):
                     sg = sign_of(s.value, env, nonempty)
@@ -290,9 +299,11 @@ def r3(R):
             upd = None
             for nid in v.path:
                 nd = g.nodes[nid]
-                if nd.kind == 'stmt' and isinstance(nd.ast, ast.AugAssign) \
-                        and isinstance(nd.ast.target, ast.Name) and \
-                        nd.ast.target.id == var:
+                if nd.kind == 'stmt' and any(
+                        isinstance(t_, ast.Name) and t_.id == var
+                        for t_ in ([nd.ast.target] if isinstance(
+                            nd.ast, ast.AugAssign) else nd.ast.targets
+                            if isinstance(nd.ast, ast.Assign) else [])):
                     upd = nd
             R.violation(upd or v.node, v.message, g, v.path)
 
@@ -737,13 +748,37 @@ def r8(R):
 
 
 # ------------------------------------------------------------------ C17.R9
-def _mentions_tloc(e):
+def _data_hdr_tloc_names(fnode):
+    """Names bound to the transaction-position field by
+    `oid, serial, prev, tloc, vlen, plen = unpack(<data header fmt>, h)`"""
+    out = set()
+    for a in walk_local(fnode):
+        if isinstance(a, ast.Assign) and isinstance(
+                a.targets[0], ast.Tuple) and len(a.targets[0].elts) == 6 \
+                and isinstance(a.value, ast.Call) and dotted(a.value.func) \
+                and dotted(a.value.func)[-1] == 'unpack' and a.value.args \
+                and isinstance(a.value.args[0], ast.Constant) and str(
+                    a.value.args[0].value).count('8s') >= 4 and isinstance(
+                        a.targets[0].elts[3], ast.Name):
+            out.add(a.targets[0].elts[3].id)
+    for a in walk_local(fnode):
+        if isinstance(a, ast.Assign) and isinstance(
+                a.targets[0], ast.Name) and isinstance(a.value, ast.Call) \
+                and len(a.value.args) == 1 and isinstance(
+                    a.value.args[0], ast.Name) and \
+                a.value.args[0].id in out and dotted(a.value.func) and \
+                dotted(a.value.func)[-1].lower() == 'u64':
+            out.add(a.targets[0].id)
+    return out
+
+
+def _mentions_tloc(e, names=()):
     for x in ast.walk(e):
         if isinstance(x, ast.Compare) and len(x.ops) == 1 and isinstance(
                 x.ops[0], ast.NotEq):
             for side in (x.left, x.comparators[0]):
                 if (isinstance(side, ast.Attribute) and side.attr == 'tloc') \
-                        or (isinstance(side, ast.Name) and side.id == 'tloc'):
+                        or (isinstance(side, ast.Name) and side.id in names):
                     return True
     return False
 
@@ -760,8 +795,10 @@ def r9(R):
     commits with normal status."""
     n = 0
     for f in R.prog.all_functions():
+        tnames = _data_hdr_tloc_names(f.node)
         for st in walk_local(f.node):
-            if not (isinstance(st, ast.If) and _mentions_tloc(st.test)):
+            if not (isinstance(st, ast.If) and _mentions_tloc(st.test,
+                                                              tnames)):
                 continue
             n += 1
             R.instance('%s: if %s' % (f.short, ast.unparse(st.test)[:70]))
